@@ -132,26 +132,33 @@ Print Assumptions C15_redirect_never_to_http_port_decl_partial.
 
 (* ---- the redirect handler ---- *)
 
-(* for every host name h without colon/brackets, with or without a port in the Host header, every
-   redirect port and every request URI: Location = https:// h [:redirPort] uri *)
-Theorem C15_redirect_location_partial :
-  forall rport h p uri, plain h -> plain p ->
+(* for every host h — a name (no colon, no brackets) or a bracketed IPv6 literal —, with or without
+   a port in the Host header, every redirect port and every request URI:
+   Location = https:// h [:redirPort] uri, brackets kept  (F-C15-3, fixed: bracketed literals used
+   to lose their brackets or get a second pair) *)
+Theorem C15_redirect_location :
+  forall rport h p uri, host_token h -> plain p ->
   redir_location rport h uri = hex_escape_non_ascii (bs "https://" ++ h ++ port_part rport ++ uri) /\
   redir_location rport (h ++ COLON :: p) uri = hex_escape_non_ascii (bs "https://" ++ h ++ port_part rport ++ uri).
-Proof. exact redir_location_partial. Qed.
-Print Assumptions C15_redirect_location_partial.
+Proof. exact redir_location_full. Qed.
+Print Assumptions C15_redirect_location.
+
+(* the two requests that used to be mangled *)
+Example C15_redirect_location_nonvacuous :
+  host_token (bs "[::1]") /\ plain (bs "80") /\
+  redir_location [] (bs "[::1]:80") (bs "/x") = bs "https://[::1]/x" /\
+  redir_location (bs "8443") (bs "[::1]") (bs "/x") = bs "https://[::1]:8443/x".
+Proof.
+  split; [right; exists (bs "::1"); split; [reflexivity|]; intros c Hc; simpl in Hc;
+          repeat (destruct Hc as [<-|Hc]; [split; discriminate|]); destruct Hc|].
+  split; [intros c Hc; simpl in Hc; repeat (destruct Hc as [<-|Hc]; [repeat split; discriminate|]); destruct Hc|].
+  split; vm_compute; reflexivity.
+Qed.
 
 Theorem C15_redirect_location_ascii_verbatim :
   forall s, (forall c, In c s -> c < 128) -> hex_escape_non_ascii s = s.
 Proof. exact hex_escape_ascii. Qed.
 Print Assumptions C15_redirect_location_ascii_verbatim.
-
-(* bracketed IPv6 Host headers are mangled (F-C15-3) *)
-Theorem C15_redirect_location_ipv6_refuted :
-  redir_location [] (bs "[::1]:80") (bs "/x") = bs "https://::1/x" /\
-  redir_location (bs "8443") (bs "[::1]") (bs "/x") = bs "https://[[::1]]:8443/x".
-Proof. exact redirect_location_ipv6_refuted. Qed.
-Print Assumptions C15_redirect_location_ipv6_refuted.
 
 (* ---- classifier lemmas ---- *)
 Theorem C15_ip_never_qualifies :
